@@ -89,3 +89,14 @@ impl<'a, M: Flat + ?Sized, B: ReadBuffer + 'a> Deref for RecvGuard<'a, M, B> {
         unsafe { M::from_bytes_unchecked(self.buffer) }
     }
 }
+
+#[cfg(feature = "verif")]
+impl<M: Flat + ?Sized, B: ReadBuffer> Receiver<M, B> {
+    /// Read-only access to the underlying buffer (verification hook).
+    pub fn verif_buffer(&self) -> &B {
+        &self.buffer
+    }
+    pub fn verif_buffer_mut(&mut self) -> &mut B {
+        &mut self.buffer
+    }
+}
